@@ -361,9 +361,12 @@ class Collection:
         """The length of a collection is the number of rows in the fields"""
         if not self._fields:
             return 0
-        first_field = list(self._fields.keys())[0]
+        first_field = self._fields[list(self._fields.keys())[0]]
         # All fields should have same length. Use length of first field in collection as length
-        return len(self._fields[first_field].data)
+        if isinstance(first_field.data, Collection):
+            # A collection without fields has no rows to count, the field remembers the number of rows
+            return first_field._num_rows()
+        return len(first_field.data)
 
     def __deepcopy__(self, memo):
         """Deep copy of collection"""
